@@ -18,7 +18,7 @@ def main():
             os.remove(os.path.join(WT, "tests", f))
     name = "demo_" + mid.replace("-", "_").lower()
     shutil.copy(os.path.join(d, "demo.rs"), os.path.join(WT, "tests", name + ".rs"))
-    fa = ("--features " + feats) if feats else ""
+    fa = feats if feats.startswith("--") else (("--features " + feats) if feats else "")
     cmd = "cargo test --offline %s --test %s -- --test-threads=1" % (fa, name)
     r0 = sh(cmd)
     clean_ok = r0.returncode == 0
